@@ -9,7 +9,9 @@ type File struct {
 type genFn func(tier, repo string) ([]File, error)
 
 var generators = map[string][]genFn{}
-var assumptions = map[string][]string{}
+var assumptions = map[string][]string{
+	"C09": {"instances are called from one goroutine at a time: 'Hash is a deterministic function' is decided sequentially; an instance that keeps unsynchronised shared state (seeded change C09_i: hash.Bytes on one package-level FNV state) misbehaves only under a data race, which the scheduler does not explore (DESIGN section 6) - not caught"},
+}
 
 func Generate(id, tier, repo string) ([]File, error) {
 	var out []File
